@@ -62,6 +62,7 @@ StripInv(v, w, inv) == IF Len(v) >= w /\ SubSeq(v, Len(v) - w + 1, Len(v)) = inv
 EncFieldEq(m, s, w, f) ==
     LET p == PFBySindex(m, s) IN
     IF w[1] = -3 THEN FieldEq(w, f)
+    ELSE IF p.k = 1 THEN SubSeq(w, 1, 4) = SubSeq(f, 1, 4)      \* a UTC field carries the instant, whatever location the File's value is held in
     ELSE IF p.k # 0 THEN w = f
     ELSE IF p.b = 7 /\ p.a = 0
          THEN /\ Len(w) <= Len(f) /\ SubSeq(f, 1, Len(w)) = w
